@@ -12,13 +12,14 @@ import (
 
 func init() {
 	register("C18", Meta{
-		Explanation: "Structural necessary conditions of the oracle quorum: (distinct) the append to Attestation.Votes is guarded by a 'not yet present' membership test whose provenance contains both that record's Votes and the appended operator, so a validator that reports twice in an epoch is counted once; (quorum) the attestation handler is invoked only under power.GTE(A*total/B) with A/B >= 66/100 (powers from GetLastValidatorPower per vote, total from GetLastTotalPower) and under currentEpoch > claim epoch; the epoch processor is called only from the end blocker under height % 5 == 0; both message handlers reach the claim recorder only for an existing validator and under currentEpoch == msg epoch; (writers) the price and holder stores are written only by the handler and InitGenesis, the epoch only by the epoch processor (+1) and InitGenesis; (holders-threshold) a holder list is adopted only under tally > MaxUint16*2/3, with the tally keyed by the content hash of the reported list and increased by the reporting validator's normalised power; (median-shape) each stored price is taken from the middle of the power-weighted, sorted value list (mean of the two middle elements for an even count).",
+		Explanation: "Structural necessary conditions of the oracle quorum: (distinct) the append to Attestation.Votes is guarded by a 'not yet present' membership test whose provenance contains both that record's Votes and the appended operator, so a validator that reports twice in an epoch is counted once; (quorum) the attestation handler is invoked only under power.GTE(A*total/B) with A/B >= 66/100 (powers from GetLastValidatorPower per vote, total from GetLastTotalPower) and under currentEpoch > claim epoch; the epoch processor is called only from the end blocker under height % 5 == 0; both message handlers reach the claim recorder only for an existing validator and under currentEpoch == msg epoch; (latest) the claim recorder's write does not depend on a read of the claim store, so a later report of the epoch replaces the earlier one; (writers) the price and holder stores are written only by the handler and InitGenesis, the epoch only by the epoch processor (+1) and InitGenesis; (holders-threshold) a holder list is adopted only under tally > MaxUint16*2/3, with the tally keyed by the content hash of the reported list and increased by the reporting validator's normalised power; (median-shape) each stored price is taken from the middle of the power-weighted, sorted value list (mean of the two middle elements for an even count).",
 		NotDecided:  []string{"that the stored price is the weighted median as a numeric fact", "normalisation rounding of powers to MaxUint16", "claims of validators that unbond inside an epoch"},
 		Assumptions: commonAssumptions,
 	}, checkC18)
 }
 
 func checkC18(c *Ctx) {
+	c.checkKeyMakers("C18", 3)
 	p, r := c.P, c.R
 	roots := c.Roots()
 	reach := c.ConsensusReach()
@@ -202,6 +203,59 @@ func checkC18(c *Ctx) {
 			r.Check(ana.Guarded(in, sameEpoch), "C18.quorum", "current-epoch:"+fname(m), c.pos(in), "claim recorded only under currentEpoch == msg.Epoch", "a claim for a stale or future epoch can be recorded (currentEpoch == msg.Epoch is not tested): reports of a closed epoch could overwrite prices or holders mid-epoch")
 			r.Check(ana.Guarded(in, valExists), "C18.quorum", "validator-exists:"+fname(m), c.pos(in), "claim recorded only for an existing validator", "a claim can be recorded for a sender that is not a validator")
 		})
+	}
+
+	// ---- latest report --------------------------------------------------------------------------
+	// a validator's report of an epoch is stored under a key that does not contain the reported values, and the
+	// handler reads that slot at the boundary: the latest report counts only if the recorder overwrites, i.e. the
+	// write does not depend on whether a claim is already stored
+	r.Min("C18.latest", 1)
+	for f, effs := range c.Writers(live, "Set", "OracleClaimKey") {
+		if c.isGenesisImport(f) {
+			continue
+		}
+		var reads []Eff
+		for _, e := range c.Effects(f) {
+			if e.Kind == "store" && e.Prefix == "OracleClaimKey" && (e.Op == "Get" || e.Op == "Has") {
+				reads = append(reads, e)
+			}
+		}
+		bad := ""
+		for _, w := range effs {
+			for _, rd := range reads {
+				rv, ok := rd.At.(ssa.Value)
+				if !ok {
+					continue
+				}
+				for _, b := range f.Blocks {
+					if len(b.Instrs) == 0 || len(b.Succs) != 2 {
+						continue
+					}
+					iff, ok := b.Instrs[len(b.Instrs)-1].(*ssa.If)
+					if !ok {
+						continue
+					}
+					dep := false
+					for _, vals := range p.Leaves(iff.Cond, ana.PVOpt{Opaque: func(d ana.CalleeDesc) bool { return true }}).Vals {
+						for _, v := range vals {
+							if v == rv {
+								dep = true
+							}
+						}
+					}
+					if !dep {
+						continue
+					}
+					r0 := reachFromTo(b.Succs[0], w.At.Block())
+					r1 := reachFromTo(b.Succs[1], w.At.Block())
+					if r0 != r1 {
+						bad = c.pos(iff)
+					}
+				}
+			}
+		}
+		r.Check(bad == "", "C18.latest", fname(f), p.Pos(f.Pos()), "the claim recorder stores every accepted report (an earlier report of the epoch is overwritten)",
+			"the claim recorder stores a report only depending on whether one is already stored (test at "+bad+"): a validator's first report of the epoch sticks and its corrected report is dropped")
 	}
 
 	// ---- writers ------------------------------------------------------------------------------
